@@ -24,6 +24,7 @@ EXPLANATION = (
     "big-endian (folded for all 32 indices); SIGNEXTEND's bit arithmetic; the division/remainder axioms use "
     "ULE; the exact definitions of the abstractions (shared R04.2) and the dispatcher's operand order (shared "
     "R01.3). Validity of the resulting terms for all 2^256 operand values is SMT, not decided here."
+    ' Also decided: ADDMOD/MULMOD form the sum/product on operands already widened to the intermediate size, and the concrete shortcut computes on Python integers.'
 )
 ASSUMPTIONS = ["z3py operator semantics on BitVecRef: / is bvsdiv, % is bvsmod (not used), >> is bvashr, < > <= >= signed; UDiv/URem/SRem/LShR/ULT.. as named", "Python int arithmetic"]
 
